@@ -21,7 +21,9 @@ CFG = {
                    "GeoProofs/Lemmas/RELMDir.lean", "GeoProofs/Lemmas/RELMStar.lean", "GeoProofs/Lemmas/RELMSym1.lean",
                    "GeoProofs/Lemmas/RELMSym2.lean", "GeoProofs/Lemmas/RELMSym3.lean", "GeoProofs/Lemmas/RELMSym4.lean",
                    "GeoProofs/Lemmas/RELMSym5.lean", "GeoProofs/Lemmas/RELMSym6.lean",
-                   "GeoProofs/Lemmas/RELMEnds.lean", "GeoProofs/Lemmas/RELMEnds2.lean"],
+                   "GeoProofs/Lemmas/RELMEnds.lean", "GeoProofs/Lemmas/RELMEnds2.lean",
+                   "GeoProofs/Lemmas/RELMTotal1.lean", "GeoProofs/Lemmas/RELMTotal2.lean", "GeoProofs/Lemmas/RELMTotal3.lean",
+                   "GeoProofs/Lemmas/RELMTotal4.lean", "GeoProofs/Lemmas/RELMTotal5.lean"],
     "rule": "ordered pairs (A, B) over all 10 geometry types (Geometry enum on both sides) drawn from one shared 3..6 grid: polyomino polygons with "
             "holes (incl. holes tangent to the shell), star polygons, rectangles with holes, corner-touching multipolygons, self-avoiding lattice "
             "paths, multi line strings sharing end points (mod-2 rule), half-grid points, same-dimension collections; each case also relates the "
@@ -140,7 +142,10 @@ MANIFEST = {
             "(impl_edgeDistance_injective), so the key (segment index, distance) of an EdgeIntersection determines its coordinate, the BTreeSet of an edge is the "
             "canonical sorted list of the set of intersections found, and visiting any candidate list that contains all pairs with intersecting envelopes — in "
             "any order, with repetitions — gives the same edges, is_isolated flags and proper-intersection flags, in self-noding and in the mutual phase "
-            "(selfNoding_order_independent, selfNoded_edges_wellFormed, mutualPhase_order_independent). Not "
+            "(selfNoding_order_independent, selfNoded_edges_wellFormed, mutualPhase_order_independent). relate never panics: "
+            "for all operands, valid or not, without a zero-length Line and with closed polygon rings (the geo-types invariant) the model reaches its end in exact "
+            "arithmetic — none of 'node should have been labeled by now', the slice indexing of EdgeEndBuilder, 'can't create empty edge', 'found single null "
+            "side', 'found partial label' can happen (relateImpl_never_panics; hence relateImpl_transpose_closed for the total function). Not "
             "proved: relateImpl = relateSpec on the validity domain in general (Line x Line and beyond).",
     "note": "Trusted: Lean kernel + audited axioms; the harness/generators (sampling); spec adequacy S1/S2. Defects found by this check and repaired in /repo: "
             "Triangle vertical edge (29720670), MultiPolygon shared vertex (5f41a6da), MultiLineString boundary_dimensions mod-2 (17c66966). The algorithm of "
